@@ -114,6 +114,11 @@ def _run_case(args):
         return case["name"], "error", "%s: %s" % (type(e).__name__, e)
     keys = _keys(ctx)
     new = keys - base_keys
+    anchor = [r for r in ctx.records if r["rule"] == "ANCHOR"]
+    if anchor and not new:
+        if case.get("kind", "mutant") == "mutant" and case.get("accept_analysis_error"):
+            return case["name"], "caught", "analysis error (accepted): %s" % anchor[0]["detail"]
+        return case["name"], "error", "AnalysisError: %s" % anchor[0]["detail"]
     und = [r for r in ctx.records if r["status"] == "undecided"]
     floor_fail = [f for f in ctx.floors if f[2] < f[3]]
     if case.get("kind", "mutant") == "twin":
